@@ -20,7 +20,7 @@ func init() {
 			"assignment tokens are routed to a parselet that validates its target and parses its right side right-to-left; the compound-assignment desugaring table; grouping returns the inner node after a required ')'." +
 			" The operator loop can be left successfully only through its precedence test; every infix parselet builds its node around the left operand it was handed; the assignment-target validation precedes the consumption of the operator and every successful return." +
 			" An identifier is a run of letters, digits and '_' only; a root selector's text reaches the expression parser unchanged." +
-			" A prefix operator parselet consumes one operator and parses one operand per activation; no branch of the parser depends on Parser state other than the token cursor, the operator table and the three statement-context flags.",
+			" A prefix operator parselet consumes one operator and parses one operand per activation; no branch of the parser depends on Parser state other than the token cursor, the operator table and the three statement-context flags. An infix parselet is entered only through the operator table from the climbing loop (never called directly by a prefix parselet).",
 		notDecided: "evaluation of the grouped tree (C05); ++/-- (outside the statement).",
 	})
 }
@@ -122,6 +122,7 @@ func runC06(c *Ctx) {
 		}
 	}
 	prattParselets(c, m)
+	infixOnlyFromLoop(c, m)
 	leftOperandPassthrough(c, m)
 	prefixOperatorShape(c, m)
 	parserStateSteering(c, m)
@@ -996,6 +997,51 @@ func prattParselets(c *Ctx, m *prattModel) {
 			c.ok("R1", "rbp "+shortName(f), p.Pos(f.Pos()), describeRbp(r))
 		}
 	}
+}
+
+// infixOnlyFromLoop: an infix parselet is entered only through the table, from the climbing loop,
+// which has compared the operator's precedence with the caller's minimum first. A direct call from
+// anywhere else (a prefix parselet taking a following `=` itself, say) applies the operator without
+// that comparison: the operator then binds to the nearest operand whatever operator encloses it.
+// Delegation between infix parselets (one handing its own left operand on) stays inside the loop's
+// decision and is accepted.
+func infixOnlyFromLoop(c *Ctx, m *prattModel) {
+	p := c.P
+	infix := map[*ssa.Function]bool{}
+	for _, r := range m.Rows {
+		if r.Infix != nil {
+			infix[r.Infix] = true
+		}
+	}
+	n := 0
+	for _, fn := range p.Funcs {
+		if !p.InLang(fn) {
+			continue
+		}
+		for _, b := range fn.Blocks {
+			for _, in := range b.Instrs {
+				call, ok := in.(ssa.CallInstruction)
+				if !ok {
+					continue
+				}
+				callee := call.Common().StaticCallee()
+				if callee == nil || !infix[callee] {
+					continue
+				}
+				n++
+				root := fn
+				for root.Parent() != nil {
+					root = root.Parent()
+				}
+				if infix[root] {
+					c.ok("R1", "infix-entry "+shortName(callee)+" from "+shortName(fn), p.InstrPos(in), "delegation between infix parselets: still inside the loop's decision")
+					continue
+				}
+				c.violated("R1", "infix-entry "+shortName(callee)+" from "+shortName(fn), p.InstrPos(in), "the infix parselet "+shortName(callee)+" is called directly, not through the operator table by the climbing loop: the operator is applied without comparing its precedence with the enclosing operator's, so it binds to the nearest operand (`a && b = 5` assigns to b) and the grouping matrix does not describe the parser")
+			}
+		}
+	}
+	c.ok("R1", "infix-entry", p.Pos(m.LoopPos), fmt.Sprintf("infix parselets are entered only through the table (%d direct calls examined)", n))
 }
 
 // leftOperandPassthrough: an infix parselet builds its node around the left operand it was given
